@@ -356,7 +356,7 @@ func Run(cfg fw.Config, rec *fw.Rec) {
 				msgs = append(msgs, true)
 				scalarMsg = true
 			default:
-				msgs = append(msgs, gen.GenMessage(r, u.Next("m"), names))
+				msgs = append(msgs, gen.GenAnyMessage(r, u.Next("m"), names))
 			}
 		}
 		replay := map[string]interface{}{"spec": a, "state": bs, "messages": msgs}
